@@ -103,20 +103,28 @@ const lp_integer_t* upolynomial_dense_lead_coeff(const upolynomial_dense_t* p_d)
 
 void upolynomial_dense_evaluate_at_rational(const upolynomial_dense_t* p_d, const lp_rational_t* x, lp_rational_t* value) {
   int i;
-  rational_assign_int(value, 0, 1);
+  // Compute in a temporary, value may be x
+  lp_rational_t result;
+  rational_construct(&result);
   for (i = p_d->size - 1; i >= 0; -- i) {
-    rational_mul(value, value, x);
-    rational_add_integer(value, value, p_d->coefficients + i);
+    rational_mul(&result, &result, x);
+    rational_add_integer(&result, &result, p_d->coefficients + i);
   }
+  rational_swap(value, &result);
+  rational_destruct(&result);
 }
 
 void upolynomial_dense_evaluate_at_dyadic_rational(const upolynomial_dense_t* p_d, const lp_dyadic_rational_t* x, lp_dyadic_rational_t* value) {
   int i;
-  dyadic_rational_assign_int(value, 0, 0);
+  // Compute in a temporary, value may be x
+  lp_dyadic_rational_t result;
+  dyadic_rational_construct(&result);
   for (i = p_d->size - 1; i >= 0; -- i) {
-    dyadic_rational_mul(value, value, x);
-    dyadic_rational_add_integer(value, value, p_d->coefficients + i);
+    dyadic_rational_mul(&result, &result, x);
+    dyadic_rational_add_integer(&result, &result, p_d->coefficients + i);
   }
+  dyadic_rational_swap(value, &result);
+  dyadic_rational_destruct(&result);
 }
 
 int upolynomial_dense_sgn_at_rational(const upolynomial_dense_t* p_d, const lp_rational_t* x) {
